@@ -35,6 +35,9 @@ type propResult struct {
 
 func loadKnown() []KnownFinding {
 	var ks []KnownFinding
+	if os.Getenv("VERIF_IGNORE_KNOWN") != "" {
+		return nil // development aid: show every finding as a violation, with its replay
+	}
 	b, err := os.ReadFile(filepath.Join(verifRoot(), "known_findings.json"))
 	if err != nil {
 		return nil
